@@ -1045,3 +1045,82 @@ NP('n_ref2_send_message_steps', ALL, 'R13: send_message split into begin_packet/
 NP('n_ref2_apply_fns', ALL, 'R14: 11 refactors of apply_many/apply_update/handle_apply_summary/...', 'selftest/neutral/R14.diff')
 NP('n_ref2_member_loops', ALL, 'R15: member.rs iterator chains <-> explicit loops, tuple matches', 'selftest/neutral/R15.diff')
 NP('n_ref2_shared_fill_probe', ALL, 'R16: fill/fill_with_len_prefix share one helper; Probe guard clauses', 'selftest/neutral/R16.diff')
+
+
+# ---------------------------------------------------------------- mutants of the REFACTORED variants
+# The rules were generalised to accept the spellings of selftest/neutral/R*.diff; these entries apply one of those
+# refactors first and then break the refactored code, to show that the generalised rules still bite there.
+def MP(name, props, rules, why, patch, *edits):
+    MUTANTS.append({'name': name, 'props': props, 'rules': rules, 'why': why, 'edits': list(edits), 'apply': [patch]})
+
+
+PROBE = 'src/probe.rs'
+BROADCAST = 'src/broadcast.rs'
+MP('r15_inline_remove_any_state', ['C09', 'C08'], ['C09-R5', 'C08-R4'], 'inline loop form of remove_if_down without the Down test',
+   'selftest/neutral/R15.diff',
+   (MEMBER, 'if &member.id == id && member.state == State::Down {\n                return Some(self.inner.swap_remove(pos));',
+    'if &member.id == id {\n                return Some(self.inner.swap_remove(pos));'))
+MP('r15_inline_swap_remove_wrong_index', ['C06'], ['C06-R2'], 'inline loop form removes pos + 1',
+   'selftest/neutral/R15.diff',
+   (MEMBER, 'return Some(self.inner.swap_remove(pos));', 'return Some(self.inner.swap_remove(pos + 1));'))
+MP('r16_match_is_probing_none_true', ['C12'], ['C12-R0'], 'match form of is_probing answers true when nothing is probed',
+   'selftest/neutral/R16.diff',
+   (PROBE, '            Some(probed) => probed.id() == id,\n            None => false,', '            Some(probed) => probed.id() == id,\n            None => true,'))
+MP('r16_receive_ack_ignores_identity', ['C12'], ['C12-R1'], 'guard-clause form of receive_ack without the identity guard',
+   'selftest/neutral/R16.diff',
+   (PROBE, '        if !from_direct {\n            return false;\n        }\n', '        let _ = from_direct;\n'))
+MP('r16_shared_fill_prefix_room', ['C06', 'C15'], ['C06-R2', 'C15-R2'], 'shared fill helper checks room for the item but not for its length prefix',
+   'selftest/neutral/R16.diff',
+   (BROADCAST, 'buffer.remaining_mut() >= node.data.len() + 2', 'buffer.remaining_mut() >= node.data.len()'))
+MP('r2_entry_cmp_match_reversed', ['C15'], ['C15-R3'], 'match form of Entry::cmp compares other with self',
+   'selftest/neutral/R2.diff',
+   (BROADCAST, 'match self.remaining_tx.cmp(&other.remaining_tx) {', 'match other.remaining_tx.cmp(&self.remaining_tx) {'))
+MP('r2_set_aside_unconditional', ['C15', 'C06'], ['C15-R2', 'C06-R2'], 'extracted set_aside helper keeps exhausted entries',
+   'selftest/neutral/R2.diff',
+   (BROADCAST, '        if node.remaining_tx > 0 {\n            self.flop.push(node);\n        }\n    }\n\n    // Moves everything',
+    '        self.flop.push(node);\n    }\n\n    // Moves everything'))
+MP('r1_apply_inline_pushes_known', ['C09'], ['C09-R1'], 'straight-line form of Members::apply registers even when the address is known',
+   'selftest/neutral/R1.diff',
+   (MEMBER, '        if let Some(summary) = self.apply_existing_if(update.clone(), |_member| true) {\n            return summary;\n        }\n',
+    '        let _ = self.apply_existing_if(update.clone(), |_member| true);\n'))
+MP('r7_invalidate_timers_noop', ['C13', 'C11'], ['C13-R1', 'C11-R6'], 'extracted invalidate_timers helper no longer bumps the token',
+   'selftest/neutral/R7.diff',
+   (LIB, '        self.timer_token = self.timer_token.wrapping_add(1);\n    }\n\n    fn reset', '        let _ = self.timer_token.wrapping_add(1);\n    }\n\n    fn reset'))
+MP('r11_ensure_not_ourselves_inverted', ['C12'], ['C12-R4'], 'extracted ensure_not_ourselves helper accepts our own identity only',
+   'selftest/neutral/R11.diff',
+   (LIB, '        if *id == self.identity {\n            return Err(Error::IndirectForOurselves);', '        if *id != self.identity {\n            return Err(Error::IndirectForOurselves);'))
+MP('r11_inactive_helper_skips_undead_check', ['C18'], ['C18-R2'], 'extracted inactive-sender helper replies even when Undead (D3 again)',
+   'selftest/neutral/R11.diff',
+   (LIB, '            if self.connection_state == ConnectionState::Undead {\n                return Ok(false);\n            }\n', ''))
+MP('r13_begin_packet_unlimited', ['C07', 'C06'], ['C07-R2', 'C06-R2'], 'extracted begin_packet wraps the buffer with an unbounded limit',
+   'selftest/neutral/R13.diff',
+   (LIB, '.limit(self.config.max_packet_size.get())', '.limit(usize::MAX)'))
+
+M('c06_fill_pushback_unconditional', ['C06', 'C15'], ['C06-R2', 'C15-R2'], 'fill pushes exhausted entries back (remaining_tx may be 0: next pop underflows)',
+  (BROADCAST, '''                buffer.put_slice(&node.data);
+                node.remaining_tx -= 1;
+            }
+
+            if node.remaining_tx > 0 {
+                self.flop.push(node);
+            }
+        }
+
+        self.flip.append(&mut self.flop);
+
+        num_taken
+    }
+
+    pub(crate) fn fill_with_len_prefix(''', '''                buffer.put_slice(&node.data);
+                node.remaining_tx -= 1;
+            }
+
+            self.flop.push(node);
+        }
+
+        self.flip.append(&mut self.flop);
+
+        num_taken
+    }
+
+    pub(crate) fn fill_with_len_prefix('''))
